@@ -12,5 +12,5 @@ CONSTANTS
   KeyCheck = TRUE
   Timeout = TRUE
 VIEW view
-INVARIANTS TypeOK NoCrossTalk ResultsInOrder OkImpliesProcessed CallbackBound AnsweredOnce NoSpuriousFailure
+INVARIANTS TypeOK NoCrossTalk ResultsInOrder OkImpliesProcessed CallbackBound AnsweredOnce ResponsesAccounted NoSpuriousFailure
 CHECK_DEADLOCK FALSE
